@@ -473,8 +473,14 @@ Definition min_seq_or (d : N) (l : list entry) : N := fold_right (fun e m => N.m
 
 Definition do_reopen (s : state) (bounds nums : list N) (nf : N) : option state :=
   let pend := pending_entries s in
-  if forallb (fresh_num s) nums && strictly_increasing nums && forallb (fun n => n <? nf) nums
-     && (next_file s <=? nf)
+  (* The file-number counter restarts from what the MANIFEST recorded, which can be BELOW the
+     in-memory counter of the previous incarnation (numbers handed out after the last edit,
+     e.g. for the current log, were never recorded).  What recovery does guarantee -- and what
+     the level-0 recency order needs -- is that new tables are numbered above every existing
+     table (each table's creation was followed by an edit recording a larger next_file). *)
+  if forallb (fun n => forallb (fun f => fnum f <? n) (concat (levels s))) nums
+     && strictly_increasing nums && forallb (fun n => n <? nf) nums
+     && forallb (fun f => fnum f <? nf) (concat (levels s))
      && forallb (fun b => b <=? last_seq s) bounds
   then
     match reopen_files 0 bounds nums pend with
